@@ -3,7 +3,10 @@
 (* Validation of recorded named-paths runs against Archive.tla.  One run   *)
 (* per line of the batch (env TRACE_FILE):                                 *)
 (*   [tid, kind, nmem, calls, outcome, collects, members, run, stores]     *)
-(* calls    the ResultsManager calls in order: [ev, m]                     *)
+(* calls    the ResultsManager calls in order: [ev, m]; also "stopall"     *)
+(*          (CsvPaths.stop_all() called while member m runs)               *)
+(* honours  the run method looks at stop_all() before it starts a member   *)
+(*          (IMPL: next_paths only)                                        *)
 (* members  per member: what the run left in memory (mem), what the        *)
 (*          projector read back from its result directory (disk), the scan *)
 (*          AST, the number of records and the last record tracked         *)
@@ -16,8 +19,8 @@ EXTENDS Values, Scan, Json, IOUtils, TLC
 
 Traces == ndJsonDeserialize(IOEnv.TRACE_FILE)
 
-VARIABLES tid, runStatus, mstat, pos, verdict
-tvars == <<tid, runStatus, mstat, pos, verdict>>
+VARIABLES tid, runStatus, mstat, halt, pos, verdict
+tvars == <<tid, runStatus, mstat, halt, pos, verdict>>
 Case == Traces[tid]
 Calls == Case.calls
 Mem == 1..Case.nmem
@@ -25,37 +28,44 @@ Kind == Case.kind
 
 Init == /\ tid \in 1..Len(Traces)
         /\ runStatus = "none" /\ mstat = [m \in 1..Traces[tid].nmem |-> "none"]
-        /\ pos = 1 /\ verdict = "run"
+        /\ halt = FALSE /\ pos = 1 /\ verdict = "run"
 
 \* the actions of Archive.tla (same guards), driven by the recorded call
 EnStart == runStatus = "none"
-EnAdd(m) == /\ runStatus = "start" /\ mstat[m] = "none"
+ShutDown == Kind = "serial" /\ Case.honours /\ halt
+Cancelled(m) == ShutDown /\ mstat[m] = "none"
+EnAdd(m) == /\ runStatus = "start" /\ mstat[m] = "none" /\ ~ShutDown
             /\ \A x \in 1..(m-1) : mstat[x] # "none"
             /\ Kind = "serial" => \A x \in 1..(m-1) : mstat[x] = "saved"
 EnSave(m) == /\ runStatus \in {"start", "aborted"} /\ mstat[m] = "added"
              /\ Kind = "byline" => ((\A x \in Mem : mstat[x] # "none") \/ runStatus = "aborted")
-EnComplete == runStatus = "start" /\ \A m \in Mem : mstat[m] = "saved"
+EnComplete == runStatus = "start" /\ \A m \in Mem : mstat[m] = "saved" \/ Cancelled(m)
+\* (a member may call stop_all() on several lines: Archive!SignalStopAll the first time, a stuttering step afterwards)
+EnSignal(m) == runStatus = "start" /\ mstat[m] = "added"
 EnAbort == runStatus = "start" /\ \E m \in Mem : mstat[m] = "added"
 
 Step ==
   /\ verdict = "run" /\ pos <= Len(Calls)
   /\ LET c == Calls[pos] IN
      CASE c.ev = "start" ->
-            IF EnStart THEN runStatus' = "start" /\ UNCHANGED <<mstat, verdict>> /\ pos' = pos + 1
-            ELSE verdict' = "lifecycle:start" /\ UNCHANGED <<runStatus, mstat, pos>>
+            IF EnStart THEN runStatus' = "start" /\ UNCHANGED <<mstat, halt, verdict>> /\ pos' = pos + 1
+            ELSE verdict' = "lifecycle:start" /\ UNCHANGED <<runStatus, mstat, halt, pos>>
        [] c.ev = "add" ->
-            IF c.m \in Mem /\ EnAdd(c.m) THEN mstat' = [mstat EXCEPT ![c.m] = "added"] /\ UNCHANGED <<runStatus, verdict>> /\ pos' = pos + 1
-            ELSE verdict' = "lifecycle:add" /\ UNCHANGED <<runStatus, mstat, pos>>
+            IF c.m \in Mem /\ EnAdd(c.m) THEN mstat' = [mstat EXCEPT ![c.m] = "added"] /\ UNCHANGED <<runStatus, halt, verdict>> /\ pos' = pos + 1
+            ELSE verdict' = "lifecycle:add" /\ UNCHANGED <<runStatus, mstat, halt, pos>>
        [] c.ev = "save" ->
-            IF c.m \in Mem /\ EnSave(c.m) THEN mstat' = [mstat EXCEPT ![c.m] = "saved"] /\ UNCHANGED <<runStatus, verdict>> /\ pos' = pos + 1
-            ELSE verdict' = "lifecycle:save" /\ UNCHANGED <<runStatus, mstat, pos>>
+            IF c.m \in Mem /\ EnSave(c.m) THEN mstat' = [mstat EXCEPT ![c.m] = "saved"] /\ UNCHANGED <<runStatus, halt, verdict>> /\ pos' = pos + 1
+            ELSE verdict' = "lifecycle:save" /\ UNCHANGED <<runStatus, mstat, halt, pos>>
+       [] c.ev = "stopall" ->
+            IF c.m \in Mem /\ EnSignal(c.m) THEN halt' = TRUE /\ UNCHANGED <<runStatus, mstat, verdict>> /\ pos' = pos + 1
+            ELSE verdict' = "lifecycle:stopall" /\ UNCHANGED <<runStatus, mstat, halt, pos>>
        [] c.ev = "complete" ->
-            IF EnComplete THEN runStatus' = "complete" /\ UNCHANGED <<mstat, verdict>> /\ pos' = pos + 1
-            ELSE verdict' = "lifecycle:complete" /\ UNCHANGED <<runStatus, mstat, pos>>
+            IF EnComplete THEN runStatus' = "complete" /\ UNCHANGED <<mstat, halt, verdict>> /\ pos' = pos + 1
+            ELSE verdict' = "lifecycle:complete" /\ UNCHANGED <<runStatus, mstat, halt, pos>>
        [] c.ev = "abort" ->
-            IF EnAbort THEN runStatus' = "aborted" /\ UNCHANGED <<mstat, verdict>> /\ pos' = pos + 1
-            ELSE verdict' = "lifecycle:abort" /\ UNCHANGED <<runStatus, mstat, pos>>
-       [] OTHER -> verdict' = "lifecycle:unknown" /\ UNCHANGED <<runStatus, mstat, pos>>
+            IF EnAbort THEN runStatus' = "aborted" /\ UNCHANGED <<mstat, halt, verdict>> /\ pos' = pos + 1
+            ELSE verdict' = "lifecycle:abort" /\ UNCHANGED <<runStatus, mstat, halt, pos>>
+       [] OTHER -> verdict' = "lifecycle:unknown" /\ UNCHANGED <<runStatus, mstat, halt, pos>>
   /\ UNCHANGED tid
 
 \* ---- agreement of one member's result directory with memory --------------------------------------
@@ -76,10 +86,15 @@ MemberDiff(mb) ==
 \* completed: the member reached the last line of its scan (true only for a member that finished)
 CompletedDiff(mb) == IF mb.disk.man.completed # CompletedExp(mb) THEN "manifest_completed" ELSE "ok"
 
-FirstBad(f(_)) == IF \E m \in Mem : f(Case.members[m]) # "ok"
-                    THEN LET m == CHOOSE m \in Mem : f(Case.members[m]) # "ok" /\ \A x \in 1..(m-1) : f(Case.members[x]) = "ok"
+\* the members of a run that returned: all of them, or - after a shutdown by stop_all() - the ones that had started (a prefix)
+Ran == {m \in Mem : ~Cancelled(m)}
+NRan == Cardinality(Ran)
+FirstBad(f(_)) == IF \E m \in Ran : f(Case.members[m]) # "ok"
+                    THEN LET m == CHOOSE m \in Ran : f(Case.members[m]) # "ok" /\ \A x \in 1..(m-1) : f(Case.members[x]) = "ok"
                          IN f(Case.members[m])
                     ELSE "ok"
+\* a cancelled member left nothing: no directory, no result
+CancelledDiff == IF \E m \in Mem : Cancelled(m) /\ Case.members[m].disk.dirname # "<missing>" THEN "cancelled_member_has_directory" ELSE "ok"
 
 AllOf(flags) == \A i \in 1..Len(flags) : flags[i]
 RECURSIVE SumOf(_)
@@ -92,16 +107,19 @@ CompleteDiff ==
   ELSE IF Case.run.status # "complete" THEN "run_manifest_status"
   ELSE IF d1 # "ok" THEN d1
   ELSE IF d2 # "ok" THEN d2
-  ELSE IF Case.run.all_valid # AllOf([m \in Mem |-> Case.members[m].mem.valid]) THEN "run_manifest_all_valid"
-  ELSE IF Case.run.all_completed # AllOf([m \in Mem |-> CompletedExp(Case.members[m])]) THEN "run_manifest_all_completed"
-  ELSE IF Case.run.error_count # SumOf([m \in Mem |-> Len(Case.members[m].mem.errLines)]) THEN "run_manifest_error_count"
-  ELSE IF Case.is_valid_api # AllOf([m \in Mem |-> Case.members[m].mem.valid]) THEN "results_manager_is_valid"
+  ELSE IF CancelledDiff # "ok" THEN CancelledDiff
+  \* (the run manifest and the results manager speak about the members that ran: Ran = 1..NRan)
+  ELSE IF Case.run.all_valid # AllOf([m \in 1..NRan |-> Case.members[m].mem.valid]) THEN "run_manifest_all_valid"
+  ELSE IF Case.run.all_completed # AllOf([m \in 1..NRan |-> CompletedExp(Case.members[m])]) THEN "run_manifest_all_completed"
+  ELSE IF Case.run.error_count # SumOf([m \in 1..NRan |-> Len(Case.members[m].mem.errLines)]) THEN "run_manifest_error_count"
+  ELSE IF Case.is_valid_api # AllOf([m \in 1..NRan |-> Case.members[m].mem.valid]) THEN "results_manager_is_valid"
   \* the other answers of the results manager: one result per member in group order, errors summed, identities resolve to their member
   ELSE IF Case.api_error # "" THEN "results_manager_raised"
-  ELSE IF Case.api.n_results # Case.nmem THEN "results_manager_number_of_results"
-  ELSE IF Case.api.has_errors # (SumOf([m \in Mem |-> Len(Case.members[m].mem.errLines)]) > 0) THEN "results_manager_has_errors"
-  ELSE IF \E i \in 1..Len(Case.api.specific) : Case.api.specific[i].got # Case.api.specific[i].m THEN "results_manager_specific_result"
-  ELSE IF Case.api.last # Case.nmem THEN "results_manager_last_result"
+  ELSE IF Case.api.n_results # NRan THEN "results_manager_number_of_results"
+  ELSE IF Case.api.has_errors # (SumOf([m \in 1..NRan |-> Len(Case.members[m].mem.errLines)]) > 0) THEN "results_manager_has_errors"
+  ELSE IF \E i \in 1..Len(Case.api.specific) :
+            Case.api.specific[i].got # (IF Cancelled(Case.api.specific[i].m) THEN 0 ELSE Case.api.specific[i].m) THEN "results_manager_specific_result"
+  ELSE IF Case.api.last # NRan THEN "results_manager_last_result"
   ELSE "ok"
 
 \* C18: a run that raised.  Every member that had started has readable meta/vars/errors, the
@@ -128,12 +146,12 @@ AbortDiff ==
 Finish ==
   /\ verdict = "run" /\ pos = Len(Calls) + 1
   /\ verdict' = IF Case.outcome = "complete" THEN CompleteDiff ELSE AbortDiff
-  /\ UNCHANGED <<tid, runStatus, mstat, pos>>
+  /\ UNCHANGED <<tid, runStatus, mstat, halt, pos>>
 
 Next == Step \/ Finish
 Spec == Init /\ [][Next]_tvars
 
-CompleteMeansAllSaved == runStatus = "complete" => \A m \in Mem : mstat[m] = "saved"
+CompleteMeansAllSaved == runStatus = "complete" => \A m \in Mem : mstat[m] = "saved" \/ Cancelled(m)
 AbortedStaysAborted == [][runStatus = "aborted" => runStatus' = "aborted"]_tvars
 
 Emit == verdict # "run" => PrintT(<<"V", ToJson([tid |-> Case.tid, verdict |-> verdict, at |-> pos])>>)
